@@ -1,6 +1,6 @@
 SPECIFICATION CSpec
 CONSTANT HUGE = 2000000
 CONSTRAINT Track
-INVARIANTS CAtMostOnce CBudgetOK CNoSameThreadConcurrent CValueAtItsPoint
+INVARIANTS CAtMostOnce CBudgetOK CNoSameThreadConcurrent CValueAtItsPoint CSurrogateReproduces
 POSTCONDITION Accepted
 CHECK_DEADLOCK FALSE
